@@ -299,7 +299,7 @@ def run(ctx, ck):
     # the image is the mirror image: positions go through kvec = (1, 1, k)
     ck.rule('R-SYM.image-mirror', 'positions are never multiplied by the scalar image index (only by the vector (1, 1, k))')
     from ._sym import check_image_mirror
-    ck.floor('products with the image index', check_image_mirror(ctx, ck), 2)
+    ck.floor('products with the image index', check_image_mirror(ctx, ck), 1)
     ck.undecided += ['numeric equality with the mirrored free-space model', 'gain 3.0103 dB above the free-space pair']
 
 
